@@ -165,8 +165,10 @@ impl Prop for P {
         let bytes = out.bytes.unwrap();
         let f = Fst::new(bytes.clone()).unwrap();
         let map = fst::Map::new(bytes.clone()).unwrap();
+        let set = fst::Set::new(bytes.clone()).unwrap();
         let mut x = String::from("ok");
         let mut res = vec![];
+        let (mut nws, mut nplain) = (0u64, 0u64);
         macro_rules! with_state {
             ($aut:expr, $fmt:expr) => {{
                 for calls in &ranges {
@@ -179,13 +181,23 @@ impl Prop for P {
                     let mut st = sb.into_stream();
                     let mut items = vec![];
                     let mut plain = vec![];
+                    let mut triples = vec![];
                     while let Some((k, v, s)) = st.next() {
                         items.push(format!("{}:{}:{}", hex(k), v.value(), $fmt(&s)));
                         plain.push((k.to_vec(), v.value()));
+                        triples.push((k.to_vec(), v.value(), $fmt(&s)));
                     }
                     if pb.into_stream().into_byte_vec() != plain {
                         x = format!("search and search_with_state disagree for {}", fmt_calls(calls));
                     }
+                    // the same search through Map / Set: search_with_state and search must give the projections
+                    if let Err(e) = crate::wrap::search_with_state_wrappers(&map, &set, || $aut, $fmt, calls, &triples) {
+                        x = e;
+                    }
+                    if let Err(e) = crate::wrap::search_wrappers(&map, &set, || $aut, calls, &plain) {
+                        x = e;
+                    }
+                    nws += 1;
                     res.push(if items.is_empty() { "_".to_string() } else { items.join(",") });
                 }
             }};
@@ -237,9 +249,15 @@ impl Prop for P {
                 if mb.into_stream().into_byte_vec() != got {
                     x = format!("Map::search disagrees with raw search for {}", fmt_calls(calls));
                 }
+                if let Err(msg) = crate::wrap::search_wrappers(&map, &set, || e.build(), calls, &got) {
+                    x = msg;
+                }
+                nplain += 1;
                 res.push(fmt_kvs(&got));
             }
         }
+        xcount_add("search_with_state_map_set", nws);
+        xcount_add("search_map_set", nws + nplain);
         let s = res.join("/");
         format!("S:{}\tM:{}\tX:{}", s, s, x)
     }
